@@ -677,6 +677,18 @@ extend("C06",
        "merged history.",
        "the location pseudo-parameter and preloaded block histories are oracle-only.")
 
+extend("C03",
+       "setLink after construction is modelled and proved to establish the link whatever the previous value (number or link, equal or "
+       "not), and to follow the target through any later history that does not rewrite that dimension (setLink_establishes, "
+       "setLink_follows_any); inherited expanding dimensions (Square, pass-through subclasses) and links held by expanding solids are "
+       "judged on every run; two repaired defects (b30c1b1, a226651) are stated exactly as theorems.", "")
+extend("C02",
+       "The setter/getter contract is proved for uniform nesting of any depth by induction on the depth (lvlLawful); no theorem assumes "
+       "positive child volumes (volFrac_sum_one for signed volumes), and blocks with negative gaps (generated, and in the reference core "
+       "at centre/edge/ordinary positions) are compared at every level; dummy nuclides, exact-zero requests, mergeWithBlock and getMasses "
+       "are judged.",
+       "getMasses is oracle-only; the core-level model comparison for the negative bond runs only in thorough.")
+
 NOT_YET = {}
 
 ALL = [f"C{n:02d}" for n in range(1, 21)]
